@@ -93,6 +93,9 @@ func mutate(r *rand.Rand, s *Spec, giant bool) []mut {
 				idx = append(idx, k)
 			}
 		}
+		if len(idx) == 0 { // an earlier mutation of this case retyped them all
+			return pickTdx()
+		}
 		k := idx[r.IntN(len(idx))]
 		return k, &tdx.Secs[k]
 	}
